@@ -63,6 +63,27 @@ def check(tier, seed):
                     sig_x = R.sign(p, sk, mim, ctx, mode, bytes(32))        # what FIPS 204 signs for that message
                     cases.append({'line': f"verify {s} {mode} {base} {hx(mim)} {hx(ctx)} {sig_x.hex()}", 'tag': f'pre-hash mode given the message {tag}: its own FIPS signature', 'want': 'true', 'model': False})
                     cases.append({'line': f"verify {s} {mode} {base} {hx(msg)} {hx(ctx)} {sig_x.hex()}", 'tag': f'pre-hash mode: signature for {tag} presented for M', 'want': 'false', 'model': False})
+    # long messages whose length is a multiple of typical chunk sizes (4 KiB, 64 KiB, 128 KiB) and one more / one less: a pre-hash that is fed
+    # in pieces must absorb every byte - a signature for the message must not verify when its last byte (or last 64 KiB) changes, nor for its prefix
+    for s in fam.SETS:
+        p = R.PARAMS[s]
+        xi = bytes(rng.randrange(256) for _ in range(32))
+        pk, sk = fam.keypair(s, xi)
+        base = f"bytes:{pk.hex()}"
+        mode = fam.MODES[1 + fam.SETS.index(s)]
+        for ln in ((4096, 65536, 65537, 131072) if tier == 'quick' else (4096, 8192, 65535, 65536, 65537, 131072, 196608)):
+            big = bytes((i * 7 + ln) % 251 for i in range(ln))
+            sig = R.sign(p, sk, big, b'', mode, bytes(32))
+            cases.append({'line': f"verify {s} {mode} {base} {hx(big)} - {sig.hex()}", 'tag': f'long message ({mode}): its FIPS signature verifies', 'want': 'true', 'model': ln == 65536})
+            last = bytearray(big); last[-1] ^= 1
+            cases.append({'line': f"verify {s} {mode} {base} {hx(bytes(last))} - {sig.hex()}", 'tag': 'long message: last byte changed', 'want': 'false', 'model': False})
+            first = bytearray(big); first[0] ^= 0x80
+            cases.append({'line': f"verify {s} {mode} {base} {hx(bytes(first))} - {sig.hex()}", 'tag': 'long message: first byte changed', 'want': 'false', 'model': False})
+            cases.append({'line': f"verify {s} {mode} {base} {hx(big[:-1])} - {sig.hex()}", 'tag': 'long message: truncated by one byte', 'want': 'false', 'model': False})
+            if ln % 65536 == 0:
+                cases.append({'line': f"verify {s} {mode} {base} {hx(big[:ln - 65536])} - {sig.hex()}", 'tag': 'long message: last 64 KiB dropped', 'want': 'false', 'model': False})
+                sig0 = R.sign(p, sk, big[:ln - 65536], b'', mode, bytes(32))
+                cases.append({'line': f"verify {s} {mode} {base} {hx(big)} - {sig0.hex()}", 'tag': 'long message: signature for the message without its last 64 KiB', 'want': 'false', 'model': False})
     # splits that put 256 or more bytes into the context: the one-byte length field would wrap (256 -> 0, 257 -> 1, 65536 -> 0 ...)
     for s in fam.SETS:
         p = R.PARAMS[s]
